@@ -1040,7 +1040,7 @@ def set_insert(c, s, k):
     if isinstance(s, ZSet):
         old = z3.Select(s.arr, k); s.arr = z3.Store(s.arr, k, TRUE); return z3.Not(old)
     for kk in s.items:
-        if c.branch(key_eq(kk, k)): return FALSE
+        if c.branch(key_eq_dyn(c, kk, k)): return FALSE
     s.items.append(k); return TRUE
 
 
@@ -1213,5 +1213,48 @@ def m_is_incomplete(c, call, e): return BOOL(deref(e).variant == 'Incomplete')
 def m_from_error_kind(c, call, inp, kind): return StructV('Error', {'input': inp, 'code': kind})
 
 
-@reg('std::hint::black_box', 'std::convert::identity', 'core::convert::identity')
+@reg('std::hint::black_box', 'std::convert::identity', 'core::convert::identity', 'must_use', 'std::hint::must_use', 'core::hint::must_use')
 def m_identity(c, call, x): return x
+
+
+# ---------------------------------------------------------------------------- percent-encoding / url (C18, C20)
+
+def _is_hex(ch): return z3.Or(z3.And(z3.UGE(ch, 0x30), z3.ULE(ch, 0x39)), z3.And(z3.UGE(ch, 0x41), z3.ULE(ch, 0x46)), z3.And(z3.UGE(ch, 0x61), z3.ULE(ch, 0x66)))
+def _hexval(ch): return z3.If(z3.ULE(ch, 0x39), ch - 0x30, (ch & 0x0f) + 9)
+
+
+def percent_decode_bytes(c, bs):
+    """percent_encoding::percent_decode: '%' + two hex digits -> byte, everything else verbatim"""
+    out = []; i = 0; n = len(bs); changed = False
+    while i < n:
+        b = bs[i]
+        if i + 2 < n + 0 and i + 2 <= n - 1 and c.branch(b == 0x25) and c.branch(z3.And(_is_hex(bs[i + 1]), _is_hex(bs[i + 2]))):
+            out.append(z3.simplify((_hexval(bs[i + 1]) << 4) | _hexval(bs[i + 2]))); i += 3; changed = True
+        else:
+            out.append(b); i += 1
+    return out, changed
+
+
+@reg('percent_decode_str', 'percent_encoding::percent_decode_str', 'percent_decode', 'percent_encoding::percent_decode')
+def m_percent_decode_str(c, call, s): return Opaque('PercentDecode', list(seq_of(s)))
+
+
+@reg('PercentDecode::decode_utf8', 'PercentDecode::decode_utf8_lossy')
+def m_pd_decode_utf8(c, call, pd):
+    bs, changed = percent_decode_bytes(c, deref(pd).info)
+    ok = c.branch(utf8_valid(bs))
+    cow = EnumV('Cow', 'Owned' if changed else 'Borrowed', [StrV(bs)])
+    if call.key.endswith('lossy'):
+        if not ok: raise Unsupported('decode_utf8_lossy on invalid UTF-8 (replacement characters not modelled)')
+        return cow
+    return Ok(cow) if ok else Err(Opaque('Utf8Error'))
+
+
+def key_eq_dyn(c, a, b):
+    """equality of hash-container keys: a user-defined PartialEq (MIR) wins over structural equality"""
+    a0 = deref(a); ty = getattr(a0, 'ty', None)
+    if ty and ty not in ('Option', 'Result', 'Cow'):
+        f = c.prog.alias.get(f'<{ty} as PartialEq>::eq')
+        if f is not None:
+            return c.run_compiled(f, [a, b])
+    return eq_term(a, b)
